@@ -95,4 +95,14 @@ example (s : KV.Secret) (a b : String × KV.Bytes) (h : (Codec.encSecret s).vers
     Codec.decSecret { (Codec.encSecret s) with versions := [b, a] } = some s :=
   Codec.decSecret_perm s _ ⟨by rw [h]; exact List.Perm.swap _ _ _, rfl, rfl⟩
 
+/-- T1, `kv.save` in calls: marshal the whole map, encrypt it under the data key, marshal the
+wrapper, and hand the bytes to `atomicfile.WriteFile` for the configured path with mode 0600 -
+nothing else: no call to the key-encryption key, no file operation of its own (no temporary
+file of its own naming, no copy kept beside the database, no rename of the live file), no
+per-secret shortcut. -/
+theorem fact_save_shape :
+    Facts.kvSaveCalls = ["json.Marshal", "kv.dekCipher.Encrypt", "aeadContextDB", "json.Marshal", "atomicfile.WriteFile"] ∧
+    Facts.kvSaveFileCalls = ["atomicfile.WriteFile(kv.path, out, 0600)"] := by
+  decide
+
 end Setec.C03
